@@ -214,7 +214,7 @@ theorem markUodStarted_frame (ser : Nat) (h : markUodStarted s i ser = some s') 
       refine ⟨?_, rfl, rfl, rfl⟩
       simp only [view, View.mk.injEq, true_and]
       apply modTrack_ids
-      intro t; dsimp only; split <;> simp
+      intro t; split <;> simp
 
 theorem markReqCancelled_frame (h : markReqCancelled s i = some s') :
     view s' = view s ∧ s'.objs = s.objs ∧ s'.events = s.events ∧ s'.done = s.done := by
